@@ -63,7 +63,7 @@ static void run() {
     }
     ev.enumerated["coin rows (all 2047 other coins each) [this worker's shard]"] += rows;
     rc_run("c05-pairs", a.n(6000, 150000), 100, [&]() {
-        auto sec = *g::secret19(); int bd = *g::birthday(); unsigned uf = *in_range<unsigned>(0, 8), enc = *in_range<unsigned>(0, 2); int A = *g::coin(); int li = *g::lang_index();
+        auto sc = *g::seed_coin(); auto sec = sc.sec; int bd = sc.bd; unsigned uf = sc.feat & 7u, enc = (sc.feat >> 4) & 1u; int A = sc.coin; int li = *g::lang_index(); if (sc.patterned) W().ev.count("gen:patterned-word-indices");
         int B = *rc::gen::weightedOneOf<int>({{4, g::coin()}, {3, rc::gen::map(in_range<int>(0, 11), [A](int b) { return A ^ (1 << b); })}, {1, rc::gen::just(A ^ 2047)}, {1, rc::gen::just((A + 1024) & 2047)}});
         RC_PRE(A != B);
         Case c; c.set("kind", "pair"); c.set("secret", hex(sec)); c.set("birthday", (uint64_t)bd); c.set("ufeat", uf); c.set("enc", enc); c.set("lang", REG->at(li).name_en); c.set("a", (uint64_t)A); c.set("b", (uint64_t)B);
